@@ -1237,7 +1237,7 @@ type typeParserParamNode struct {
 func (t *typeParser) parse() typeParserResult {
 	// parse the AST
 	ast, ok := t.parseClassNode()
-	if !ok {
+	if !ok || !ast.wellFormed() {
 		// treat this is a custom type
 		return typeParserResult{
 			isComposite: false,
@@ -1315,6 +1315,33 @@ func (t *typeParser) parse() typeParserResult {
 			reversed:    []bool{reversed},
 		}
 	}
+}
+
+// wellFormed reports whether the node and its parameters have the parameters
+// their interpretation relies on (the type string comes from the schema tables).
+func (class *typeParserClassNode) wellFormed() bool {
+	need := 0
+	switch {
+	case strings.HasPrefix(class.name, LIST_TYPE),
+		strings.HasPrefix(class.name, SET_TYPE),
+		strings.HasPrefix(class.name, REVERSED_TYPE),
+		strings.HasPrefix(class.name, COMPOSITE_TYPE):
+		need = 1
+	case strings.HasPrefix(class.name, MAP_TYPE):
+		need = 2
+	}
+	if len(class.params) < need {
+		return false
+	}
+	for i := range class.params {
+		if strings.HasPrefix(class.name, COLLECTION_TYPE) && class.params[i].name == nil {
+			return false
+		}
+		if !class.params[i].class.wellFormed() {
+			return false
+		}
+	}
+	return true
 }
 
 func (class *typeParserClassNode) asTypeInfo() TypeInfo {
@@ -1401,7 +1428,14 @@ func (t *typeParser) parseParamNodes() (params []typeParserParamNode, ok bool) {
 
 	t.skipWhitespace()
 
-	for t.input[t.index] != ')' {
+	for {
+		if t.index >= len(t.input) {
+			// missing ')'
+			return nil, false
+		}
+		if t.input[t.index] == ')' {
+			break
+		}
 		// look for a named param, but if no colon, then we want to backup
 		backupIndex := t.index
 
@@ -1416,7 +1450,7 @@ func (t *typeParser) parseParamNodes() (params []typeParserParamNode, ok bool) {
 
 		t.skipWhitespace()
 
-		if t.input[t.index] == ':' {
+		if t.index < len(t.input) && t.input[t.index] == ':' {
 			// there is a name for this parameter
 
 			// consume the ':'
@@ -1449,7 +1483,7 @@ func (t *typeParser) parseParamNodes() (params []typeParserParamNode, ok bool) {
 
 		t.skipWhitespace()
 
-		if t.input[t.index] == ',' {
+		if t.index < len(t.input) && t.input[t.index] == ',' {
 			// consume the comma
 			t.index++
 
